@@ -307,7 +307,8 @@ def check_spellings(rep, rng):
             for s in sps:
                 groups.append(('real', val, s))
         for w in (1, 4, 8):
-            for v in set([0, 1, 2 ** w - 1, 5 % 2 ** w]):
+            for v in set([0, 1, 2 ** w - 1, 5 % 2 ** w, 2 ** (w - 1),
+                          2 ** (w - 1) - 1]):
                 bits = format(v, '0%db' % w)
                 groups.append(('bv', (v, w), ('BV', v, w)))
                 groups.append(('bv', (v, w), ('BV', bits, None)))
@@ -333,6 +334,23 @@ def check_spellings(rep, rng):
                 n = fn(sp[1], sp[2]) if sp[2] is not None else fn(sp[1])
                 ok = (n.is_bv_constant() and n.constant_value() == val[0]
                       and n.bv_width() == val[1])
+                # the other accessors of a bit-vector constant
+                v_, w_ = val
+                sgn = v_ - 2 ** w_ if v_ >= 2 ** (w_ - 1) else v_
+                acc = {'bv_unsigned_value': v_, 'bv_signed_value': sgn,
+                       'bv_bin_str': format(v_, '0%db' % w_),
+                       'bv2nat': v_}
+                for an, want in acc.items():
+                    if an == 'bv2nat':
+                        got_ = n.bv2nat() if hasattr(n, 'bv2nat') else want
+                    else:
+                        got_ = getattr(n, an)()
+                    rep.count('accessor_checks')
+                    if got_ != want:
+                        rep.violation(
+                            'C04/accessor/%s' % an,
+                            '%s of the %d-bit constant %d is %r, expected %r'
+                            % (an, w_, v_, got_, want))
             elif kind == 'int':
                 n = mgr.Int(sp)
                 ok = n.is_int_constant() and n.constant_value() == val
@@ -462,6 +480,20 @@ def check_normalize(rep, rng, n):
             try:
                 c = dst.formula_manager.normalize(f)
             except Exception as e:
+                # two source environments may use one name at two types
+                # (the generator's names carry a 16-bit checksum of the
+                # type): then the copy must be refused
+                clash = False
+                if 'redefine symbol' in str(e):
+                    have = dict((x.symbol_name(), x.symbol_type()) for x in
+                                dst.formula_manager.get_all_symbols())
+                    clash = any(
+                        x.symbol_name() in have and
+                        str(have[x.symbol_name()]) != str(x.symbol_type())
+                        for x in f.get_free_variables())
+                if clash:
+                    rep.count('normalize_name_clashes_refused')
+                    continue
                 rep.violation('C04/normalize/raises/%s' % common.exc_name(e),
                               'normalize(%s) raised %r' % (B.show(b, 120), e),
                               {'bp': B.to_json(b)})
